@@ -51,6 +51,7 @@ func (interp *Interpreter) SingleStepStateTransition(pc ProgramCounter) (ExitRea
 	// (v0.7.1  A.20) l = skip(iota)
 	skipLength := ProgramCounter(skip(int(pc), interp.Program.Bitmasks))
 
+	interp.jumped = false
 	exitReason, newPC := execInstructions[opcodeData](interp, pc, skipLength) // update PVM states
 
 	reason := exitReason.GetReasonType()
@@ -65,8 +66,8 @@ func (interp *Interpreter) SingleStepStateTransition(pc ProgramCounter) (ExitRea
 		return exitReason, pc
 	}
 
-	if pc != newPC {
-		// execute branch instruction
+	if pc != newPC || interp.jumped {
+		// execute branch instruction (a taken jump may target its own address)
 		return exitReason, newPC
 	}
 
@@ -133,6 +134,7 @@ func (interp *Interpreter) SingleStepInvokeDecodedBlocks(pc ProgramCounter) (Exi
 			}
 			interp.Gas -= 1
 
+			interp.jumped = false
 			exitReason, newPC := instr.Exec(interp, instr)
 
 			switch exitReason.GetReasonType() {
@@ -144,7 +146,8 @@ func (interp *Interpreter) SingleStepInvokeDecodedBlocks(pc ProgramCounter) (Exi
 				return exitReason, instr.PC + ProgramCounter(instr.SkipLen) + 1
 			}
 
-			if instr.PC != newPC {
+			if instr.PC != newPC || interp.jumped {
+				// a taken jump may target its own address (a one-instruction loop)
 				pc = newPC
 				branchTaken = true
 				break
